@@ -100,9 +100,16 @@ def gen_c01(tier, seed):
     lists = [['12', '3'], ['1', '2'], ['123', '45', '6'], ['A', 'B'], ['ABC', 'D'], ['AB', 'CD'], ['abc', '123'], ['123', 'abc'],
              [gen.digits(r, 7), gen.alnum(r, 5), gen.latin1(r, 4)], [b'\x01', 'x'], ['ä', '€'], ['€', 'ä'], ['€', '€'],
              ['点', '茗'], ['点茗', 'abc'], [1, 2], [12, 'AB'], ['a', b'\xff\x00', 'Z9'], ['12', '34', 'AB', 'cd', '56']]
-    for lst in lists:
-        for kw in ({}, {'micro': False}, {'eci': True, 'micro': False}, {'boost_error': False, 'micro': False, 'error': 'H'}):
+    for i, lst in enumerate(lists):
+        for j, kw in enumerate(({}, {'micro': False}, {'eci': True, 'micro': False}, {'boost_error': False, 'micro': False, 'error': 'H'})):
             add(call('make', lst, **kw))
+            # the parts handed over as a tuple / generator / list iterator / map object: every part arrives, in order, none twice
+            add(symobs.in_container(call('make', lst, **kw), symobs.CONTAINERS[(i + j) % 4]))
+    for kind in symobs.CONTAINERS:
+        add(symobs.in_container(call('make_qr', ['id=', 4711, ';ok']), kind))
+        add(symobs.in_container(call('make', ['12', '34', '5']), kind))
+        add(symobs.in_container(call('make_micro', ['1', '2']), kind))
+        add(symobs.in_container(call('make', ['single part']), kind))
     # falsy-looking contents are contents: 0, '0', a NUL byte, a blank
     for c in (0, '0', b'0', b'\x00', ' ', [0, 'A'], ['0', 0], [0], 10 ** 40, '00', b'\x00\x00'):
         for kw in ({}, {'micro': False}, {'error': 'M'}, {'version': 1, 'mask': 0}, {'version': 'M2', 'mask': 0} if not isinstance(c, list) and c not in (b'\x00', b'\x00\x00', ' ', 10 ** 40) else {'mask': 0}):
@@ -113,6 +120,9 @@ def gen_c01(tier, seed):
             lst = [gen.content_for_mode(r, r.choice(('numeric', 'alphanumeric', 'byte', 'kanji')), r.randint(1, 9)) for _ in range(k)]
             add(call('make', lst, micro=r.choice((None, False)), eci=False))
             add(call('make_qr', lst, eci=True))
+    # pairs / triples of active options (requested mask x boosting x ECI x requested version / mode / level x micro)
+    for c in gen.option_combination_calls(call):
+        add(c)
     # (d') ECI headers at the capacity boundaries (sizing = what is written), per-part encodings
     for c in gen.eci_boundary_calls(call, not thorough):
         add(c)
@@ -436,6 +446,15 @@ def gen_c02(tier, seed):
                 calls.append(call('make', list(sub) + [('\u4e66\u8bfb', 13)]))
     calls.append(call('make', [('\u4e66\u8bfb', 13)]))
     calls.append(call('make', [('\u4e66\u8bfb', 13), ('\u4e66', 13)]))
+    # pairs / triples of active options: e.g. a requested mask together with boosting that raises the level (the format information names
+    # the level the codewords are protected with), ECI together with boosting, a requested version together with a requested mode
+    calls += gen.option_combination_calls(call)
+    for m in range(8):
+        calls.append(call('make', 'HELLO', error='L', micro=False, mask=m))
+        calls.append(call('make_qr', gen.digits(r, 5 + m), mask=m))
+        if m < 4:
+            calls.append(call('make_micro', '123', error='L', mask=m))
+            calls.append(call('make', '12', version='M4', mask=m))
     # automatic masks with an exact tie of the evaluation: the format information must still name the pattern that was applied
     calls += tie_corpus_calls()
     return calls
@@ -566,6 +585,13 @@ def gen_c03(tier, seed):
     for i, c in enumerate(gen.multipart_boundary_calls(call, True)):
         if c['kw'].get('version') is None and (tier == 'thorough' or i % 3 == 0):
             specs.append((c, [], False))
+    # pairs / triples of active options (requested mask x boosting x ECI x requested version / mode / level x micro)
+    for c in gen.option_combination_calls(call):
+        specs.append((c, [], False))
+    # every multi-part boundary call that merges equal-mode parts (the parts are sized as the merged segment)
+    for lst in (['123', '457'], ['Hello ', 'World'], ['ABCDEFGH', 'IJKLMNOP'], ['12', '34', '56'], ['AB', 'CD', 'EF', 'GH'], [b'ab', b'cd'], ['\u70b9', '\u8317']):
+        for kw in ({}, {'micro': False}, {'error': 'M'}, {'boost_error': False}):
+            specs.append((call('make', lst, **kw), [], False))
     # data codeword sequences that start with zero codewords (M4, numeric, one digit: 000 000001 dddd)
     for e in ('L', 'M', 'Q'):
         for d in ('0', '7'):
@@ -620,6 +646,14 @@ def gen_c06(tier, seed):
             calls.append(call('make', c, **kw_for(v, e, mask=m)))
     for m in ('0', '3'):
         calls.append(call('make', 'mask as string', mask=m, micro=False))
+    # other notations of a pattern number the implementation converts with int(): if the call is accepted, THAT pattern is used - in
+    # particular pattern 0 written as 0.0 / False / ' 0 ' is a request, not "no request" (a refusal is fine: these types are not documented)
+    for m in (0.0, 3.0, 7.0, False, True, ' 0 ', '00', ' 2'):
+        for content, kw in (('mask notation', {'micro': False}), ('12345', {'version': 'M2'}), ('MASK NOTATION 2', {'version': 2, 'error': 'Q'})):
+            if kw.get('version') == 'M2' and m == 7.0:
+                continue
+            calls.append(call('make', content, mask=m, **kw))
+        calls.append(call('make_qr', 'mask notation qr', mask=m))
     # automatic mask: many small symbols, one (thorough: ten) per version
     nsmall = 700 if tier == 'quick' else 5000
     for i in range(nsmall):
@@ -730,6 +764,9 @@ def gen_c13(tier, seed):
         calls.append(call('make', gen.digits(r, n)))
         calls.append(call('make', gen.latin1(r, n), micro=False))
     calls.append(call('make', ['12', 'AB', 'cd']))
+    # pairs / triples of active options, and an ECI header with boosting on at every length (the header counts when the level is raised)
+    calls += gen.option_combination_calls(call)
+    calls += [c for c in gen.eci_boundary_calls(call, True) if 'boost_error' not in c['kw'] and 'version' not in c['kw']]
     # multi-block symbols, every numeric / alphanumeric length: the terminated stream ends at every position relative to the block
     # boundaries (the pad codewords that follow must not depend on where a block ends or on the last data codeword)
     for v, e in (((3, 'H'), (4, 'Q'), (5, 'Q'), (5, 'H')) if tier == 'quick' else [(v, e) for v in range(3, 11) for e in QR_LEVELS if len(T.layout(v, e)) > 1]):
